@@ -216,3 +216,30 @@ Proof.
   unfold nsec3_owner_name. rewrite E1, E2. cbn [bind]. eexists. eexists. split; [reflexivity|]. split; [reflexivity|].
   rewrite name_cmp_first_label, !lowers_map_ch, (lex_map_ch _ _ D1 D2). apply (all_digits_order n); assumption.
 Qed.
+
+(* ---- discharged for SHA-1 (C11): the hashes are 20 octets, so for any two
+   names the canonical order of their NSEC3 owner names is the order of their
+   hashes -- no premise left *)
+From DV Require Import C11.Sha C13.Model C13.ProofsNames.
+
+Lemma nb8 b0 b1 b2 b3 b4 b5 b6 b7 : nb b0 (nb b1 (nb b2 (nb b3 (nb b4 (nb b5 (nb b6 (nb b7 0))))))) < 256.
+Proof. destruct b0, b1, b2, b3, b4, b5, b6, b7; vm_compute; reflexivity. Qed.
+
+Lemma octets_of_w32_range x : Forall (fun b => b < 256) (octets_of_w32 x).
+Proof. destruct x. unfold octets_of_w32. repeat constructor; apply nb8. Qed.
+
+Lemma sha1_range m : Forall (fun b => b < 256) (sha1 m).
+Proof. unfold sha1. repeat (apply Forall_app; split); apply octets_of_w32_range. Qed.
+
+Lemma c13_hash_is_sha1 n i s : exists m, c13_hash n i s = sha1 m.
+Proof.
+  unfold c13_hash. rewrite nsec3_hash_rfc5155. destruct (N.to_nat i); cbn [rfc5155_IH]; eexists; reflexivity.
+Qed.
+
+Theorem nsec3_sha1_owner_order a b i s apex :
+  exists o1 o2, nsec3_owner_name (c13_hash a i s) apex = Ok o1 /\ nsec3_owner_name (c13_hash b i s) apex = Ok o2 /\
+    name_cmp o1 o2 = lex_cmp (c13_hash a i s) (c13_hash b i s).
+Proof.
+  destruct (c13_hash_is_sha1 a i s) as (ma & Ea). destruct (c13_hash_is_sha1 b i s) as (mb & Eb).
+  rewrite Ea, Eb. apply (nsec3_owner_order 4); try apply sha1_length; apply sha1_range.
+Qed.
